@@ -419,6 +419,9 @@ def _zip_text(fn, c):
     e = alpha(fn, c)
     if isinstance(e, ast.Call):
         e.keywords = [k for k in e.keywords if k.arg != "strict"]
+        for a in e.args:  # zip(*list(X)) == zip(*X)
+            while isinstance(a, ast.Starred) and isinstance(a.value, ast.Call) and call_name(a.value) in ("list", "tuple") and len(a.value.args) == 1:
+                a.value = a.value.args[0]
     return norm(e)
 
 
